@@ -25,6 +25,8 @@ if [ -s "$OUT/hooks.diff" ]; then
   git add $files src/util/verif.rs
   git commit -qm "verif hooks: $* accessors (add-only, feature verif)"
   echo "hooks committed: $(git log --oneline | head -1)"
+  # the guard-off build must still compile
+  (cd /repo && cargo check --offline 2>&1 | grep -E "^error" -A6 | head -20)
 fi
 cd /verif
 for ID in "$@"; do
